@@ -79,7 +79,7 @@ def simple_val(rng, tname, origin, plain=True, within=None):
 def soa_val(rng, origin, serial=None):
     m = GR.NameRef((b"ns1",) + tuple(origin), True, True)
     r = GR.NameRef((b"hostmaster",) + tuple(origin), True, True)
-    s = serial if serial is not None else rng.choice((1, 2, 100, 2**31 - 1, 2**31, 2**32 - 2, 2**32 - 1, rng.randrange(2**32)))
+    s = serial if serial is not None else rng.choice((0, 1, 2, 100, 2**31 - 1, 2**31, 2**32 - 2, 2**32 - 1, rng.randrange(2**32)))
     t = [rng.choice((60, 3600, 86400, 0, 2**31 - 1)) for _ in range(4)]
     args = [m, r, s] + t
     parts = [m, r, struct.pack("!I", s)] + [struct.pack("!I", x) for x in t]
